@@ -98,6 +98,7 @@ def gen(tier, seed):
         else:
             near = False
         cases.append({"ka": fsl(ka), "Pa": pts_json(Pa), "kb": fsl(kb), "Pb": pts_json(Pb), "mode": mode,
+                      "elevate": rnd.choice((0, 0, 0, 1, 2, 3)),
                       "meets": m, "near_miss": near})
     return cases
 
@@ -112,6 +113,11 @@ def impl(case):
         ks = [float(k) for k in nums(ks)]
         return Curve([ks[0]] + ks + [ks[-1]], [np.array([float(v) for v in nums(pt)]) for pt in P])
     A, B = build(case["ka"], case["Pa"]), build(case["kb"], case["Pb"])
+    # the same curves stored in a non-minimal form (degree raised): the answer must not change and the operands stay as they are
+    if case.get("elevate", 0) & 1:
+        A.degree_increase(1)
+    if case.get("elevate", 0) & 2:
+        B.degree_increase(1)
     snap = lambda c: (tuple(c.knotvector), tuple(map(tuple, c.ctrlpoints)))
     before = (snap(A), snap(B))
     r = capture(lambda: [[out_num(t), out_num(u)] for t, u in Intersection.curve_and_curve(A, B)], seconds=30)
